@@ -31,6 +31,36 @@ Section Interface.
   }.
 End Interface.
 
+(* The same interface relativised to a predicate G on byte streams (e.g. "every frame stays inside the safe band of the
+   limit"), prefix-closed; obligations are only required while the bytes fed so far, including the ones about to be fed,
+   satisfy G.  [D c d] = "c is a drained state (the last next() raised StopIteration) that has been fed exactly d":
+   a transport read is only ever issued from such a state. *)
+Section InterfaceRel.
+  Context {P C : Type}.
+  Variable M : machine P C.
+  Variable spec : bytes -> list (nres P).
+  Variable G : bytes -> Prop.
+
+  Record consumer_ok_rel (R : C -> bytes -> nat -> Prop) (D : C -> bytes -> Prop) : Prop := {
+    okr_prefix : forall d x, G (d ++ x) -> G d;
+    okr_mono : forall d x, exists tl, spec (d ++ x) = spec d ++ tl;
+    okr_D_R : forall c d, D c d -> R c d (length (spec d));
+    okr_drain : forall c d k c' r, G d -> R c d k -> mdrain M c = (c', r) ->
+        match r with
+        | RStop => k = length (spec d) /\ D c' d
+        | _ => nth_error (spec d) k = Some r /\ R c' d (S k)
+        end;
+    okr_take : forall c d avail, D c d -> avail <> [] -> G (d ++ avail) ->
+        exists c' r n room, mtake M c avail = Some (c', r, n, room) /\
+          1 <= n <= length avail /\
+          match r with
+          | RStop => length (spec (d ++ firstn n avail)) = length (spec d) /\ D c' (d ++ firstn n avail)
+          | _ => nth_error (spec (d ++ firstn n avail)) (length (spec d)) = Some r /\
+                 R c' (d ++ firstn n avail) (S (length (spec d)))
+          end
+  }.
+End InterfaceRel.
+
 (* the bytes the peer sent before it closed *)
 Fixpoint stream_of (o : oracle) : bytes :=
   match o with
